@@ -257,13 +257,48 @@ class Interp:
                 else:
                     cur = ("val", self.proj_value(st, cur[1], ("v", p["v"])))
             elif k in ("index", "cidx", "subslice"):
-                if cur[0] == "cell":
+                sv = self.load(st, cur[1], cur[2]) if cur[0] == "cell" else cur[1]
+                ev = self.input_element(st, fr, pl, sv, p)
+                if ev is not None:
+                    cur = ("val", ev)
+                elif cur[0] == "cell":
                     cur = ("cell", cur[1], cur[2] + (("e",),))
                 else:
                     cur = ("val", TOP)
             else:
                 cur = ("val", TOP)
         return cur
+
+    def input_element(self, st, fr, pl, sv, p):
+        """byte `i` (constant index) of an immutable input slice: one symbolic variable per (slice, index), so that
+        repeated reads agree and facts about it survive to the return states"""
+        if not isinstance(sv, Seq) or p["k"] == "subslice":
+            return None
+        if len(sv.len.t) != 1 or sv.len.c != 0:
+            return None
+        (lv, k_), = sv.len.t.items()
+        if k_ != 1 or not re.search(r"_a\d+(_|$).*_len$|_a\d+_len$", lv):
+            return None
+        bt = fr.body.local_ty(pl["l"])
+        if bt.get("k") != "ref" or bt.get("mut"):
+            return None
+        if p["k"] == "cidx":
+            if p.get("from_end"):
+                return None
+            idx = p["off"]
+        else:
+            iv = st.cells.get(self.cell_of(fr, p["l"]))
+            idx = st.sys.const_value(iv.e) if isinstance(iv, Num) else None
+            if idx is None:
+                return None
+        et = fr.body.ty(pl["ty"])
+        r = int_range(et)
+        if r is None:
+            return None
+        name = "e%d@%s" % (int(idx), lv)
+        e = Lin.var(name)
+        st.sys.add_range(e, r[0], r[1])
+        return Num(e)
 
     def read_place(self, st, fr, pl):
         loc = self.locate(st, fr, pl)
@@ -299,6 +334,15 @@ class Interp:
             return FnV(op.get("fn_key") or op.get("fn_def") or op["fn"])
         v = op.get("v", {})
         if "int" in v:
+            t0 = fr.body.ty(op["ty"])
+            if t0.get("k") == "adt":
+                a0 = self.prog.adts.get(t0["path"])
+                if a0 and a0["kind"] == "struct" and len(a0["variants"][0]["fields"]) == 1:
+                    return Struct({0: Num(Lin.const(v["int"]))})      # scalar-evaluated newtype constant
+                if a0 and a0["kind"] == "enum" and all(not x["fields"] for x in a0["variants"]):
+                    idx = self.variant_index(t0["path"], v["int"])
+                    if idx is not None:
+                        return Enum(t0["path"], {idx: Struct()})
             return Num(Lin.const(v["int"]))
         if "bool" in v:
             return Cond("const", bool(v["bool"]))
@@ -313,6 +357,18 @@ class Interp:
                     idx = self.variant_index(t["path"], int.from_bytes(bytes.fromhex(v["mem"]), "little"))
                     if idx is not None:
                         return Enum(t["path"], {idx: Struct()})
+                rk = re.match(r"^std::ops::(Range|RangeInclusive|RangeFrom|RangeTo|RangeToInclusive)$", t["path"])
+                if rk and t.get("args") and v["mem"]:
+                    et = fr.body.ty(t["args"][0])
+                    if int_range(et) is not None and et.get("k") == "int":
+                        w = et["bits"] // 8
+                        raw = bytes.fromhex(v["mem"])
+                        nf = {"Range": 2, "RangeInclusive": 2, "RangeFrom": 1, "RangeTo": 1, "RangeToInclusive": 1}[rk.group(1)]
+                        if len(raw) >= nf * w:
+                            flds = {i: Num(Lin.const(int.from_bytes(raw[i * w:(i + 1) * w], "little"))) for i in range(nf)}
+                            if rk.group(1) == "RangeInclusive":
+                                flds[2] = Cond("const", bool(raw[2 * w]) if len(raw) > 2 * w else False)
+                            return Struct(flds)
                 if a and a["kind"] == "struct" and len(a["variants"][0]["fields"]) == 1 and n <= 16 and v["mem"]:
                     f = a["variants"][0]["fields"][0]
                     if "ty" in f and int_range(a["_types"][f["ty"]]) is not None:
@@ -574,7 +630,8 @@ class Interp:
                 if truth:
                     st.sys.add_eq(a - b)
                 else:
-                    # a != b : refine only at interval ends
+                    st.sys.add_ne(a - b)
+                    # a != b : refine at interval ends
                     if st.sys.entails_ge(a - b):
                         st.sys.add_ge(a - b - 1)
                     elif st.sys.entails_ge(b - a):
@@ -1448,6 +1505,9 @@ def keep_ghosts(sys_, live, ghosts):
     constant, i.e. while `a = c*q + const` is an equality of the system (congruence information)"""
     out = set(live)
     for v in sys_.vars():
+        if v[0] == "e" and "@" in v and v.split("@", 1)[1] in live:
+            out.add(v)      # byte of an input slice that is still alive
+            continue
         g = ghosts.get(v)
         if g is not None and v not in out:
             a, c = g
